@@ -185,6 +185,20 @@ def make_fs(tj, **kw):
     if tj["cov_s"] is not None:
         args["time_coverage"] = D(seconds=tj["cov_s"])
     args.update(kw)
+    if tj.get("late_ph") and ph:
+        # call history: the object parses a name with the default placeholder patterns first, then the
+        # user gives the regexes / value lists through set_placeholders()
+        fs = FileSet(path="/vt-nonexistent-root/base/" + tj["template"], **args)
+        s0 = dt.datetime(2000, 1, 2, 3, 4, 5)
+        warm = {u: ("noaa" if u == "sat" else "v1") for u in tj["users"]}
+        for call in (fs.parse_filename, fs.get_info):
+            try:
+                call("/vt-nonexistent-root/base/" + T.render(tj["template"], s0, s0 + D(hours=1), warm))
+            except Exception:
+                pass
+        fs.info_cache.clear()
+        fs.set_placeholders(**ph)
+        return fs
     return FileSet(path="/vt-nonexistent-root/base/" + tj["template"], placeholder=ph or None,
                    **args)
 
@@ -428,6 +442,9 @@ def run_shard(spec, rec):
     while done < n:
         tj = gen_template(rng)
         ti += 1
+        if any(v is not None for v in tj["users"].values()) and rng.random() < 0.35:
+            tj["late_ph"] = True
+            rec.count("templates.placeholders_set_after_first_parse")
         try:
             fs = make_fs(tj)
         except Exception as exc:
